@@ -98,6 +98,10 @@ func c12Yield(point string) {
 	if s != nil {
 		s.yield(point)
 	}
+	// the two-application-thread gate harness (c12_gate2.go) runs after this file's runner
+	if g := c12g2Cur.Load(); g != nil {
+		g.yield(point)
+	}
 }
 
 func (s *c12Sys) yield(point string) {
